@@ -521,7 +521,8 @@ func normalizeValue(
 		d := v.Interface().(time.Duration)
 		return newString(ctx, opts.meta, d.String()), nil
 	case tRegexp:
-		r := v.Addr().Interface().(*regexp.Regexp)
+		// (a value held by a map or an interface is not addressable)
+		r := pointerize(reflect.PtrTo(tRegexp), tRegexp, v).Interface().(*regexp.Regexp)
 		return newString(ctx, opts.meta, r.String()), nil
 	}
 
